@@ -858,54 +858,3 @@ fn run_script(sc: &J, si: usize, o: &mut Out) -> bool {
     let _ = std::fs::remove_dir_all(&dir);
     true
 }
-
-// ------------------------------------------------------------------ probe (manual experiments)
-/// `tpv cycle-probe --src FILE step...` with steps `c` (cycle), `aN` (advance N ms), `s:NAME:0|1`
-/// (set a BOOL global), `i:N` (set global inj), `rw`/`rc` (warm / cold restart).  Prints the execution
-/// log `elog[0..lgn)` and the errors of every cycle.
-pub fn probe(args: &[String]) -> i32 {
-    let src = std::fs::read_to_string(arg(args, "--src").expect("--src")).unwrap();
-    let mut h = match TestHarness::from_source(&src) {
-        Ok(h) => h,
-        Err(e) => {
-            println!("COMPILE ERROR: {e}");
-            return 1;
-        }
-    };
-    for t in h.runtime().tasks() {
-        println!("task {} programs={:?} fb_instances={:?}", t.name, t.programs, t.fb_instances);
-    }
-    for st in args.iter().skip(2).filter(|a| !a.contains("--") && !a.contains('.')) {
-        if st == "c" {
-            h.set_input("lgn", Value::Int(0));
-            let r = h.cycle();
-            let n = match h.get_output("lgn") { Some(Value::Int(n)) => n as usize, o => panic!("lgn {o:?}") };
-            let exec: Vec<i64> = match h.get_output("elog") {
-                Some(Value::Array(a)) => a.elements.iter().take(n).map(|v| match v { Value::Int(i) => *i as i64, _ => -1 }).collect(),
-                _ => vec![],
-            };
-            println!("cycle: exec={exec:?} errors={:?} faulted={} frames={}", r.errors, h.runtime().faulted(), h.runtime().storage().frames().len());
-            if let Some(path) = arg(args, "--watch") {
-                // PROG.inst[.inst].member
-                let parts: Vec<&str> = path.split('.').collect();
-                let st = h.runtime().storage();
-                let mut cur = st.get_global(parts[0]).cloned();
-                for p in &parts[1..] {
-                    cur = match cur { Some(Value::Instance(id)) => st.get_instance_var(id, p).cloned(), _ => None };
-                }
-                println!("  {path} = {cur:?}");
-            }
-        } else if let Some(n) = st.strip_prefix('a') {
-            h.advance_time(Duration::from_millis(n.parse().unwrap()));
-        } else if let Some(r) = st.strip_prefix("s:") {
-            let (n, v) = r.split_once(':').unwrap();
-            h.set_input(n, Value::Bool(v == "1"));
-        } else if let Some(r) = st.strip_prefix("i:") {
-            h.set_input("inj", Value::Int(r.parse().unwrap()));
-        } else if st == "rw" || st == "rc" {
-            let res = h.restart(if st == "rw" { trust_runtime::RestartMode::Warm } else { trust_runtime::RestartMode::Cold });
-            println!("restart: {res:?}");
-        }
-    }
-    0
-}
